@@ -1922,8 +1922,42 @@ func contractHistory(c *Ctx, id int) {
 		am, tok := withAmount()
 		call(from, types.HtlcContract, tok, am, "Unlock", definition.ABIHtlc.PackMethodPanic(definition.UnlockHtlcMethodName, e.Id, pre))
 	}
-	genHtlc := func() {
+	// proxy scenario: the hash-locked party of an open entry denies (or allows again) proxy unlocks, then a third party
+	// presents the correct preimage before expiry
+	proxyFlow := func() bool {
+		var cands []*definition.HtlcInfo
+		for _, e := range r.htlcs {
+			if keyOf(e.HashLocked) != nil && e.ExpirationTime > frontierTime()+60 && len(r.preimages[e.Id]) <= int(e.KeyMaxSize) {
+				cands = append(cands, e)
+			}
+		}
+		if len(cands) == 0 {
+			return true
+		}
+		e := cands[c.R.Intn(len(cands))]
+		method := definition.DenyHtlcProxyUnlockMethodName
+		if c.R.Intn(3) == 0 {
+			method = definition.AllowHtlcProxyUnlockMethodName
+		}
+		if call(e.HashLocked, types.HtlcContract, types.ZnnTokenStandard, zero, method, definition.ABIHtlc.PackMethodPanic(method)) == nil {
+			return true
+		}
+		if !advance(2) {
+			return false
+		}
+		third := pick(users)
+		for k := 0; k < 5 && third == e.HashLocked; k++ {
+			third = pick(users)
+		}
+		call(third, types.HtlcContract, types.ZnnTokenStandard, zero, "Unlock", definition.ABIHtlc.PackMethodPanic(definition.UnlockHtlcMethodName, e.Id, r.preimages[e.Id]))
+		c.Hit("flow-htlc-proxy-" + method)
+		return true
+	}
+	genHtlc := func() bool {
 		y := c.R.Intn(100)
+		if c.R.Intn(8) == 0 {
+			return proxyFlow()
+		}
 		if len(r.htlcs) == 0 && y >= 35 && y < 90 && c.R.Intn(5) != 0 {
 			y = 0 // nothing to release yet: create
 		}
@@ -1975,7 +2009,7 @@ func contractHistory(c *Ctx, id int) {
 			}
 		case y < 70: // Unlock: hash-locked party / third party (proxy) / time-locked party; right, wrong, too long, empty preimage
 			if len(r.htlcs) == 0 && len(r.deadIds) == 0 {
-				return
+				return true
 			}
 			var e *definition.HtlcInfo
 			if len(r.htlcs) > 0 && c.R.Intn(10) != 0 {
@@ -2035,6 +2069,7 @@ func contractHistory(c *Ctx, id int) {
 			am, tok := withAmount()
 			call(pick(everyone), types.HtlcContract, tok, am, "AllowProxyUnlock", definition.ABIHtlc.PackMethodPanic(definition.AllowHtlcProxyUnlockMethodName))
 		}
+		return true
 	}
 
 	pillarKeys := []types.Address{g.Pillar1.Address, g.Pillar2.Address, g.Pillar3.Address, g.Pillar4.Address, g.Pillar5.Address, g.Pillar6.Address, g.Pillar7.Address, g.Pillar8.Address}
@@ -2560,7 +2595,9 @@ func contractHistory(c *Ctx, id int) {
 			genStake()
 		case x < 46:
 			if withHtlc {
-				genHtlc()
+				if !genHtlc() {
+					return
+				}
 			} else if c.R.Intn(2) == 0 {
 				genPlasma()
 			} else {
